@@ -105,3 +105,11 @@ Theorem C05_party_views_are_the_sources :
   forall c, GenDecide.gen_IsPull c = is_pull c /\ GenDecide.gen_OtherPeer c = other_peer c.
 Proof. exact DecideEq.party_views_are_source. Qed.
 Print Assumptions C05_party_views_are_the_sources.
+
+(* the peer a message about a channel is sent to (Node.other_party: the responder if this node is the
+   initiator, else the initiator) is the one the source computes: regenerated from types.go
+   ChannelID.OtherParty on every run *)
+Theorem C05_counterparty_is_the_sources :
+  forall p k, GenDecide.gen_OtherParty p k = other_party p k.
+Proof. exact DecideEq.other_party_is_source. Qed.
+Print Assumptions C05_counterparty_is_the_sources.
